@@ -131,6 +131,7 @@ def evaluate(dep, program):
     probes["lstar_evals"] = L.evals
     for rec_ in dep.results_changed_after_return():
         v.append(Violation("C06", "C06.result-mutated", "C06:%s:result-returned-earlier-was-changed-by-a-later-call" % rec_["op"]["op"], "the object returned by op %s no longer holds the values it held when it was returned" % (rec_["op"],)))
+    v += sampling.check_concurrent(dep, "C06", probes)
     if program["config"].get("ll_override"):
         probes["runs_with_neg_inf_profile_stub(kernel output overridden)"] = 1
     return v, probes
